@@ -16,6 +16,33 @@ from common import REPO, WORK
 GEN_DIR = os.path.join(WORK, "gen" + os.environ.get("VERIF_KANI_TARGET_SUFFIX", ""))
 
 
+class _atomic:
+    """write-if-changed through a temporary file and rename: concurrent checks regenerate the same files and a compiler may be
+    reading them"""
+
+    def __init__(self, path):
+        self.path = path
+
+    def __enter__(self):
+        import io
+        self.buf = io.StringIO()
+        return self.buf
+
+    def __exit__(self, *exc):
+        new = self.buf.getvalue()
+        try:
+            if open(self.path).read() == new:
+                return False
+        except OSError:
+            pass
+        tmp = "%s.%d.tmp" % (self.path, os.getpid())
+        with open(tmp, "w") as f:
+            f.write(new)
+        os.replace(tmp, self.path)
+        return False
+
+
+
 def find_fn_body(src, fn_regex):
     """Return (body_text_without_outer_braces, line_number) of the first fn whose header matches fn_regex."""
     m = re.search(fn_regex, src)
@@ -198,10 +225,10 @@ def generate_closures(status, notes):
             expr = None
         if expr is None:
             status[t["name"]] = f"closure after /{t['anchor']}/ not found exactly once in {t['file']}"
-            with open(out, "w") as f:
+            with _atomic(out) as f:
                 f.write("// extraction failed\n#[allow(unused_variables)]\n%s {\n    panic!(\"lifting failed: closure not found in source\")\n}\n" % t["signature"])
             continue
-        with open(out, "w") as f:
+        with _atomic(out) as f:
             f.write("// GENERATED on every run by /verif/lib/lift.py: body of the closure after /%s/ in %s (fn at line %d), verbatim\n" % (t["anchor"], t["file"], line))
             f.write("#[allow(unused_variables, unused_mut, clippy::all)]\n")
             f.write(t["signature"] + " {\n    " + expr.strip().rstrip(",") + "\n}\n")
@@ -225,12 +252,12 @@ def generate_blocks(status, notes):
             block = None
         if block is None:
             status[t["name"]] = f"block between /{t['start']}/ and /{t['end']}/ not found exactly once in {t['file']}"
-            with open(out, "w") as f:
+            with _atomic(out) as f:
                 f.write("// extraction failed\n#[allow(unused_variables)]\n%s {\n    panic!(\"lifting failed: block not found in source\")\n}\n" % t["signature"])
             continue
         for pat, rep in t["rewrites"]:
             block = re.sub(pat, rep, block, flags=re.S)
-        with open(out, "w") as f:
+        with _atomic(out) as f:
             f.write("// GENERATED on every run by /verif/lib/lift.py: statements of %s (fn at line %d) from /%s/ up to /%s/, verbatim\n" % (t["file"], line, t["start"], t["end"]))
             f.write("#[allow(unused_variables, unused_mut, clippy::all)]\n")
             f.write(t["signature"] + " {\n    " + t["prologue"] + block + "\n    " + t["epilogue"] + "\n}\n")
@@ -253,12 +280,12 @@ def generate_exprs(status, notes):
             expr = None
         if expr is None:
             status[t["name"]] = f"`let {t['binding']} = ..;` not found exactly once (or it awaits) in {t['header'][:30]}.. of {t['file']}"
-            with open(out, "w") as f:
+            with _atomic(out) as f:
                 f.write("// extraction failed\n#[allow(unused_variables)]\n%s {\n    panic!(\"lifting failed: binding not found in source\")\n}\n" % t["signature"])
             continue
         for pat, rep in t["rewrites"]:
             expr = re.sub(pat, rep, expr, flags=re.S)
-        with open(out, "w") as f:
+        with _atomic(out) as f:
             f.write("// GENERATED on every run by /verif/lib/lift.py: initialiser of `let %s` in %s (fn at line %d), verbatim except: %s\n" % (
                 t["binding"], t["file"], line, "; ".join(f"s/{p}/{r}/" for p, r in t["rewrites"])))
             f.write("#[allow(unused_variables, unused_mut, clippy::all)]\n")
@@ -283,13 +310,13 @@ def generate():
             body, line = None, None
         if body is None:
             status[t["name"]] = f"function header not found in {t['file']} (signature changed?)"
-            with open(out, "w") as f:
+            with _atomic(out) as f:
                 f.write("// extraction failed: target not found\n%s {\n    panic!(\"lifting failed: target not found in source\")\n}\n"
                         % t["signature"].replace("self_", "_self_").replace("msg:", "_msg:"))
             continue
         for pat, rep in t["rewrites"]:
             body = re.sub(pat, rep, body, flags=re.S)
-        with open(out, "w") as f:
+        with _atomic(out) as f:
             f.write("// GENERATED on every run by /verif/lib/lift.py from %s:%d - body verbatim except: %s\n" % (
                 t["file"], line, "; ".join(f"s/{p}/{r}/" for p, r in t["rewrites"])))
             f.write("#[allow(unused_variables, unused_mut, clippy::all)]\n")
